@@ -301,6 +301,7 @@ _sc.domain = _sign_domain
 
 # ---- C14: public-key recovery ------------------------------------------------------------------------------------------
 import z3
+from pyvc import sym
 from pyvc.sym import SInt, SBool, T, eq, And_
 from contracts import ellipticcurve as ECM
 from contracts import numbertheory as NTC
@@ -320,22 +321,15 @@ def _scalar_ctor(ex, F, vals, line):
     ex.oblige("%s#call(PointJacobi.__init__)#requires-reduced-coordinates" % ex.cur_func, And_(SInt(yt) >= 0, SInt(yt) < fp), "call-requires", line)
     scalar = None
 
-    def core(t):
-        # y, -y, (-y) % p  ->  (sign, y)
-        if z3.is_app(t) and t.decl().name() == "imod" and t.arg(1).eq(fp.t):
-            return core(t.arg(0))
-        u = z3.simplify(-t)
-        if z3.is_app(t) and t.decl().kind() == z3.Z3_OP_UMINUS:
-            return (-1, t.arg(0))
-        if z3.is_app(t) and t.decl().kind() == z3.Z3_OP_MUL and t.num_args() == 2 and z3.is_int_value(t.arg(0)) and t.arg(0).as_long() == -1:
-            return (-1, t.arg(1))
-        return (1, t)
+    def zero_mod_p(t):
+        c = sym.canon_mod_arg(t, fp.t)
+        return z3.is_int_value(c) and c.as_long() == 0
     for (x0, y0, s0) in tab:
         if x0 is x:
-            sg, yy = core(yt)
-            sg0, yy0 = core(y0)
-            if yy.eq(yy0):
-                scalar = s0 if sg == sg0 else -s0
+            if zero_mod_p(yt + y0):
+                scalar = -s0          # same x, opposite y (mod p): the negated point
+            elif zero_mod_p(yt - y0):
+                scalar = s0
     if scalar is None:
         k = W.get("nonce")
         if k is None:
